@@ -374,6 +374,23 @@ func (P *Prog) receiverWrites(fn *ssa.Function) []*recvWrite {
 		}
 	}
 	visit(fn, 0)
+	// a complete in-place literal overwrites everything: nothing of the old
+	// value remains
+	for _, w := range out {
+		if w.complete && len(w.fields) > 0 {
+			var strip func(t *Term) *Term
+			strip = func(t *Term) *Term {
+				if t.Op == "update" && len(t.Args) == 2 {
+					return &Term{Op: "update", S: t.S, Args: []*Term{strip(t.Args[0]), t.Args[1]}}
+				}
+				if t.Op == "load" && t.Args[0].Op == "param" && t.Args[0].S == "0" {
+					return T("zero", "")
+				}
+				return t
+			}
+			w.val = strip(w.val)
+		}
+	}
 	return out
 }
 
